@@ -357,8 +357,17 @@ func wrapsAtoi(f *ssa.Function) bool {
 		if _, builtin := ci.Common().Value.(*ssa.Builtin); builtin {
 			continue
 		}
-		if calleeFullName(ci) == "strconv.Atoi" && ci.Common().Args[0] == ssa.Value(f.Params[0]) {
+		name := calleeFullName(ci)
+		decimal := name == "strconv.Atoi"
+		if name == "strconv.ParseInt" || name == "strconv.ParseUint" {
+			if k, ok := ci.Common().Args[1].(*ssa.Const); ok && k.Value != nil && k.Int64() == 10 {
+				decimal = true // the base itself is LINT-NARROW's business; a decimal parse is the same conversion
+			}
+		}
+		if decimal && ci.Common().Args[0] == ssa.Value(f.Params[0]) {
 			n++
+		} else if strings.HasPrefix(name, "fmt.") || strings.HasPrefix(name, "errors.") {
+			continue // building an error message
 		} else {
 			return false
 		}
